@@ -300,7 +300,7 @@ static int execute(const unsigned char *prefix, int nprefix, struct sched_trace 
         run_once(CUR, SHTR, prefix, nprefix);
         _exit(0);
     }
-    int st; waitpid(p, &st, 0);
+    int st; int bloated = vh_wait_child(p, &st);
     n_exec++; vh_transitions(SHTR->npoints);
     memcpy(out, SHTR, sizeof *out);
     if (SHTR->switches) vh_nontrivial();
@@ -326,6 +326,7 @@ static int execute(const unsigned char *prefix, int nprefix, struct sched_trace 
         }
     }
     if (bad) { }
+    else if (bloated) { vh_violation("memory-runaway", "the execution grew beyond %d MiB resident (a wild walk through memory under the sanitizer's shadow) and was ended", VH_RSS_LIMIT_MB); bad = 1; }
     else if (WIFEXITED(st) && WEXITSTATUS(st) == 70) { vh_violation("deadlock", "no thread can run: every unfinished thread waits for a lock (after %d scheduling points)", SHTR->npoints); bad = 1; }
     else if (WIFEXITED(st) && (WEXITSTATUS(st) == 71 || WEXITSTATUS(st) == 72 || WEXITSTATUS(st) == 73 || WEXITSTATUS(st) == 74)) { fprintf(stderr, "scheduler error %d (divergence/overflow) replaying a prefix of %d choices\n", WEXITSTATUS(st), nprefix); exit(2); }
     else if (WIFSIGNALED(st) || (WIFEXITED(st) && WEXITSTATUS(st))) {
@@ -413,8 +414,8 @@ static void engine(void)
             memset(SHTR, 0, sizeof(int) * 8); fflush(NULL);
             pid_t p = fork();
             if (p == 0) { int fd = open("/dev/null", O_WRONLY); if (fd >= 0) { dup2(fd, 2); } vh_quiet(1); run_once(CUR, SHTR, NULL, 0); _exit(0); }
-            int st; waitpid(p, &st, 0); memcpy(root, SHTR, sizeof *root);
-            rootbad = !(WIFEXITED(st) && WEXITSTATUS(st) == 0 && root->finished); violating_execs = (int)sv;
+            int st; int bloated = vh_wait_child(p, &st); memcpy(root, SHTR, sizeof *root);
+            rootbad = bloated || !(WIFEXITED(st) && WEXITSTATUS(st) == 0 && root->finished); violating_execs = (int)sv;
         }
         if (rootbad) { free(root); continue; }     /* the sequential run itself fails: reported by the root group's owner */
         golden_outcome = root->outcome_hash; have_golden = 1;
